@@ -482,7 +482,8 @@ def rule_newline(ctx, rep, rid="R-C15-newline"):
     if not lb or not a:
         rep.error(rid, "lexer::tokenize or TokenType attributes not found")
         return
-    b = lb[0]
+    from vlib.inline import inlined
+    b = inlined(ctx.prog, lb[0])
     from rules.c05 import lexer_counters
     LINE = lexer_counters(b).get("line")
     if LINE is None:
@@ -507,6 +508,16 @@ def rule_newline(ctx, rep, rid="R-C15-newline"):
                             if sty == "char":
                                 counted |= {chr(int(x)) for x in labs}
                                 found = True
+                if si and si["kind"] == "bool" and si["subject"][0] == "bin" and si["subject"][1] == "Eq":
+                    # `if c == '\n'`
+                    from rules.c05 import panics_int
+                    for succ, labs in si["edges"].items():
+                        if labs == [True] and (succ == i or succ in dom.get(i, set())):
+                            for o in si["subject"][2:4]:
+                                v = panics_int(b, o)
+                                if v is not None and o[0] == "c" and o[1] == "char":
+                                    counted.add(chr(v))
+                                    found = True
             if not found:
                 unconditional = True
     if not counted:
